@@ -487,6 +487,12 @@ func runC14(c *Ctx) {
 		c.Check(K(cl.Name, "close(done) under write lock"), cl.Pos(), okW, "Close raises the closed flag under the wgLk write lock", "close(s.done) not under wgLk.Lock()")
 	}
 
+	// R6 workers that Close waits for never block on a caller that gave up: the keystore worker's
+	// replies (C20.R2) and the refresh manager's answers to accepted requests (C12.R6)
+	c.Rule("R6")
+	c.Share("C20", "R2")
+	c.Share("C12", "R6")
+
 	// R5 constructor cleanup
 	c.Rule("R5")
 	c14Constructors(c)
@@ -970,6 +976,48 @@ func c14Idempotent(c *Ctx) {
 				}
 				if _, isFn := y.(*ast.FuncLit); isFn {
 					break
+				}
+			}
+			// (c) every path to the close runs through such a default arm (`select { case <-ch: return; default: }; close(ch)`)
+			if !ok2 {
+				cf := f.CFG()
+				for _, sel := range f.Selects() {
+					same := false
+					var dflt *ast.CommClause
+					for _, sc := range eng.SelectCases(info, sel) {
+						if sc.Chan != nil && eng.SameExpr(info, sc.Chan, call.Args[0]) {
+							same = true
+						}
+						if sc.Kind == "default" {
+							dflt = sc.Clause
+						}
+					}
+					if !same || dflt == nil {
+						continue
+					}
+					// the select is passed on every path to the close, and the close is unreachable
+					// from the arm that saw the channel closed
+					for _, sc := range eng.SelectCases(info, sel) {
+						if sc.Chan == nil || !eng.SameExpr(info, sc.Chan, call.Args[0]) || sc.Clause.Comm == nil {
+							continue
+						}
+						var phys eng.Loc
+						for _, b := range cf.G.Blocks {
+							for i, nd := range b.Nodes {
+								if b.Live && nd == ast.Node(sc.Clause.Comm) {
+									phys = eng.Loc{B: b, I: i}
+								}
+							}
+						}
+						arm := cf.LocOf(sc.Clause.Comm)
+						if !phys.Valid() || !arm.Valid() {
+							continue
+						}
+						reach, _ := cf.Reach(arm, eng.LocSet(cf.LocOf(call)), eng.ReachOpt{})
+						if cf.Dominates(phys, cf.LocOf(call)) && !reach {
+							ok2 = true
+						}
+					}
 				}
 			}
 			c.Check(K(f.Name, "close("+fld+")"), call.Pos(), ok2, "a channel closed by Close is closed at most once (sync.Once, or select-default on the same channel), so Close may be called repeatedly", "unguarded close of a field channel in Close")
